@@ -47,7 +47,19 @@ P = {
          "That each built-in validator computes the right predicate is not decided.",
          TRUST + "Custom validators and Validate() methods are user code: decided is that they are called.",
          "§3 C04"),
- "C06": (False, "", "", "", "§3 C06"),
+ "C06": (True,
+         "writer/reader sibling agreement: SSA expression normal forms over shared roles (E7, custom) + simulation of every reflect.Kind dispatch",
+         "Decides the structural necessary condition behind 'struct -> Config -> struct is the identity': the two directions cannot drift apart. "
+         "The expression naming a struct field, the value paired with it, the tag options and the dominating participation conditions (exported, "
+         "not ignored, not inline) are read back from SSA as trees over (struct value, field index, options) for normalizeStructInto and for "
+         "accessField/reifyStruct and must be identical; both sides parse the key with the same path parser and options on the config they were "
+         "given; every kind accepted inline on the way in is accepted on the way out; the specially encoded types are exactly the extras table, "
+         "tested before the numeric kinds on both sides and written/read by an inverse library pair; for each of the 27 reflect kinds the "
+         "dispatches of normalizeValue, reifyMergeValue, reifyValue and doReifyPrimitive are simulated: the writer accepts every kind the property "
+         "names and the reader's converter accepts the value classes the writer produces; the cross-sign integer conversions have succeeding paths.",
+         TRUST + "Value equality after the round trip (number formatting and precision, pointer depth, nil vs empty, Duration text) is value-level and "
+         "not decided; the class tables of handler functions and the inverse-pair table are frozen in the checker (unknown handlers are undecided).",
+         "§3 C06"),
  "C07": (True,
          "compiler BCE residual + custom linear bounds prover (Fourier-Motzkin over dominating facts, phi induction, store forwarding, call-site facts) + panic/assertion/goroutine/reflect-kind rules on SSA",
          "Decides, for the current tree, that every program point that can panic is guarded on every path: the index/slice operations the compiler's "
